@@ -67,8 +67,10 @@ def run_config(rep, impl, cfg, opts, world, vcs, tags=(), kill=False):
     if vcs == "fakehg":
         status = {0: "", 1: "M other.txt\n", 2: "M a.txt\n", 3: "? other.txt\n"}[dirty]
     vcs_cfg = dict(tags=list(tags), status=status, remote="origin" if remote else None, fail=[fail] if fail else [], usable=True, watch="a.txt")
+    # some git projects are laid out like a linked worktree / submodule (.git is a file); the steps are the same
+    git_file = vcs == "fakegit" and (hash((cfg, opts, world)) % 4 == 0)
     prj = project.TempProject("MAJOR.MINOR.PATCH", "1.2.3", files={"a.txt": ["ver = {version}"]}, commit=commit, tag=tag, push=push,
-                              vcs=vcs if has_vcs else None, vcs_cfg=vcs_cfg if has_vcs else None, hooks=hooks,
+                              vcs=vcs if has_vcs else None, vcs_cfg=vcs_cfg if has_vcs else None, hooks=hooks, git_file=git_file,
                               tag_message="" if tagmsg_empty else "tag {new_version}")
     with prj:
         if not has_vcs:
